@@ -53,7 +53,9 @@ func (v *FlagValue) String() string {
 		return ""
 	}
 
-	return toString(v.Config(), v.collector.GetOptions(), v.onError)
+	// String only reports: a configuration that can not be printed (yet) is no
+	// failing argument and must not make the collector ignore later arguments
+	return toString(v.Config(), v.collector.GetOptions(), func(err error) error { return err })
 }
 
 func (v *FlagValue) Get() interface{} {
@@ -64,10 +66,6 @@ func (v *FlagValue) Set(arg string) error {
 	cfg, internalErr, reportErr := v.loader(arg)
 	v.collector.Add(cfg, internalErr)
 	return reportErr
-}
-
-func (v *FlagValue) onError(err error) error {
-	return v.collector.Add(nil, err)
 }
 
 func toString(cfg *ucfg.Config, opts []ucfg.Option, onError func(error) error) string {
